@@ -4,6 +4,7 @@ pub mod c03;
 pub mod c04;
 pub mod c05;
 pub mod c06;
+pub mod c08;
 pub mod c09;
 pub mod c10;
 pub mod c11;
@@ -29,6 +30,7 @@ pub fn dispatch(id: &str, args: Args) -> ! {
         "C04" => c04::run(args),
         "C05" => c05::run(args),
         "C06" => c06::run(args),
+        "C08" => c08::run(args),
         "C09" => c09::run(args),
         "C10" => c10::run(args),
         "C11" => c11::run(args),
